@@ -43,10 +43,11 @@ ANCHORS = [
 ]
 TIMEOUT = 900.0
 
-APIS = ["optimize", "rewrite", "rewrite_custom", "rewrite_empty", "fold_constants", "remove_unused_nodes",
+APIS = ["optimize", "optimize_noinline", "rewrite", "rewrite_custom", "rewrite_empty", "fold_constants", "remove_unused_nodes",
         "remove_unused_functions", "convert_version", "replace_functions", "inline"]
 INPLACE = {   # documented behaviour per entry form: "inplace" | "functional" | "identity" | None (not documented)
     "optimize": {"proto": "functional", "ir": "inplace"},
+    "optimize_noinline": {"proto": "functional", "ir": "inplace"},
     "rewrite": {"proto": "functional", "ir": None},
     "rewrite_custom": {"proto": "functional", "ir": None},
     "rewrite_empty": {"proto": "identity", "ir": "identity"},
@@ -149,6 +150,9 @@ def _call(api, form, arg, aside, target_version):
 
     if api == "optimize":
         return opt.optimize(arg)
+    if api == "optimize_noinline":
+        # a non-default option must reach the implementation through both entry forms alike
+        return opt.optimize(arg, inline=False, num_iterations=1)
     if api == "rewrite":
         return rw.rewrite(arg)
     if api == "rewrite_custom":
@@ -305,7 +309,7 @@ def check_model(mb: bytes, aside, label, hit, v, generated=True):
             else:
                 if mode == "identity" and r["same_obj"] and ser(ir.serde.serialize_model(out)) != nb:
                     v(f"api={api};entry=ir;kind=not_identity", f"{label}: {api}(ir.Model, []) changed the model", {})
-                if mode in ("inplace", "identity") and not r["same_obj"] and api in ("optimize", "rewrite_empty"):
+                if mode in ("inplace", "identity") and not r["same_obj"] and api in ("optimize", "optimize_noinline", "rewrite_empty"):
                     v(f"api={api};entry=ir;kind=not_same_object", f"{label}: {api}(ir.Model) returned a different object", {})
                 if mode == "inplace" and r.get("given_after") is not None and ser(r["given_after"]) != ser(R):
                     v(f"api={api};entry=ir;kind=inplace_not_mutated", f"{label}: {api}(ir.Model) returned a model that differs from the "
